@@ -49,6 +49,10 @@ def matter (j : Json) : Except String Json := do
   let n ← getQ (← field j "n")
   let vol ← getQ (← field j "vol")
   let via ← (← field j "via").getStr?
+  -- selections requested one after the other on the same object
+  let keeps : List (List Bool) ← match j.getObjVal? "keeps" with
+    | .ok kj => (← getList kj).mapM fun k => do (← getList k).mapM fun b => b.getBool?
+    | .error _ => pure []
   let posQ : Option (Q Rat) → Bool := fun q => match q with
     | none => true
     | some q => decide (0 < q.v) && decide (0 < q.f)
@@ -67,7 +71,9 @@ def matter (j : Json) : Except String Json := do
     | some s =>
       match dataMatter da cs s with
       | none => jstr "err"
-      | some t => Json.mkObj [("state", stateJson s), ("table", tableJson t)]
+      | some t =>
+        let sels : List Json := keeps.map fun k => tableJson (t.select k)
+        Json.mkObj [("state", stateJson s), ("table", tableJson t), ("sel", Json.arr sels.toArray)]
   let sp : Json := if mode == .massFraction then jstr "unspecified" else
     match spec cs da rho n vol with
     | none => jstr "unspecified"
